@@ -142,6 +142,10 @@ def expand_csr_ops(ops, regs, addr_width, data_width, garbage):
         elif k == "raw":
             cyc.append((int(op.get("addr", 0)) & amask, int(bool(op.get("r", 0))),
                         int(bool(op.get("w", 0))), int(op.get("data", 0)) & dmask, "raw"))
+        elif k == "reset":
+            # one idle cycle during which the world resets the clock domain
+            t = len(cyc)
+            cyc.append((garbage(t, addr_width), 0, 0, garbage(t + 7919, data_width), "reset"))
         elif k == "txn":
             if not regs:
                 idle(1, "idle")
